@@ -229,3 +229,33 @@ impl LineTable {
         self.seqs.iter().flat_map(|s| s.rows.iter()).filter(|r| r.file == file && r.is_stmt && r.line != 0).map(|r| r.addr).collect()
     }
 }
+
+/// Instruction start addresses (file addresses) of the executable sections, decoded by
+/// llvm-objdump; cached next to the binary.
+pub fn insn_boundaries(bin: &Path) -> Result<BTreeSet<u64>, String> {
+    let cache = bin.with_extension("insn.txt");
+    let txt = match std::fs::read_to_string(&cache) {
+        Ok(t) => t,
+        Err(_) => {
+            let o = std::process::Command::new("llvm-objdump").args(["-d", "--no-show-raw-insn"]).arg(bin).output().map_err(|e| format!("llvm-objdump: {e}"))?;
+            if !o.status.success() {
+                return Err("llvm-objdump failed".into());
+            }
+            let mut out = String::new();
+            for l in String::from_utf8_lossy(&o.stdout).lines() {
+                let t = l.trim_start();
+                if let Some((a, _)) = t.split_once(':') {
+                    if !a.is_empty() && a.len() <= 16 && a.bytes().all(|b| b.is_ascii_hexdigit()) && l.starts_with(' ') {
+                        out.push_str(a);
+                        out.push('\n');
+                    }
+                }
+            }
+            let tmp = bin.with_extension(format!("insn.tmp{}", std::process::id()));
+            let _ = std::fs::write(&tmp, &out);
+            let _ = std::fs::rename(&tmp, &cache);
+            out
+        }
+    };
+    Ok(txt.lines().filter_map(|l| u64::from_str_radix(l, 16).ok()).collect())
+}
